@@ -156,10 +156,11 @@ pub fn exec(case: &str) -> Exec {
                     }
                     // both formats: written and read back as the same group
                     for fmt in ["pdb", "cif"] {
-                        for level in [StrictnessLevel::Strict, StrictnessLevel::Medium, StrictnessLevel::Loose] {
+                        for (li, level) in [StrictnessLevel::Strict, StrictnessLevel::Medium, StrictnessLevel::Loose].into_iter().enumerate() {
                             let r = guarded(|| {
                                 let mut pdb = one_atom_pdb();
-                                pdb.unit_cell = Some(UnitCell::new(10.0, 20.0, 30.0, 90.0, 90.0, 90.0));
+                                // three cells in turn: an ordinary one, the unit cube, a large one
+                                pdb.unit_cell = Some(match (i + li) % 3 { 0 => UnitCell::new(10.0, 20.0, 30.0, 90.0, 90.0, 90.0), 1 => UnitCell::new(1.0, 1.0, 1.0, 90.0, 90.0, 90.0), _ => UnitCell::new(250.5, 99.999, 1000.0, 90.0, 90.0, 90.0) });
                                 pdb.symmetry = Some(sym.clone());
                                 let mut buf = Vec::new();
                                 if fmt == "pdb" { save_pdb_raw(&pdb, BufWriter::new(&mut buf), level); } else { save_mmcif_raw(&pdb, BufWriter::new(&mut buf)); }
